@@ -188,6 +188,16 @@ def py_index(parts):
     return tuple(idx)
 
 
+def index_variant(idx, rank, style):
+    """equivalent spellings of a basic index: a trailing Ellipsis for partial indexes, a
+    leading Ellipsis when every axis is indexed (exercises the right-of-Ellipsis rules)"""
+    if style == "plain":
+        return idx
+    if len(idx) == rank:
+        return (Ellipsis,) + tuple(idx)
+    return tuple(idx) + (Ellipsis,)
+
+
 class Builder:
     def __init__(self, watch=None, on_node=None):
         self.watch = watch
@@ -237,7 +247,7 @@ class Builder:
             if n == "reshape":
                 return x.reshape(tuple(p))
             if n == "getslice":
-                return x[py_index(p)]
+                return x[self.index_variant(py_index(p), len(x.output.shape))]
             raise NotImplementedError(n)
         if c == "Bin":
             a = self.build(t["l"])
@@ -292,6 +302,10 @@ class Builder:
 
     rename_as_str = False
     real_num_as_tensor = False
+    index_style = "plain"         # how a basic index is spelled: plain | ellipsis
+
+    def index_variant(self, idx, rank):
+        return index_variant(idx, rank, self.index_style)
     leaf_cache = None
     gauss_form = "white_vec"      # which constructor parametrisation to use for Gauss leaves
 
